@@ -287,7 +287,7 @@ PROP = {
         # every second of 8 (quick) / 40 (thorough) boundary dates: JD round trip + error flag, next(1), next(-1)
         {"name": "c12.secs", "args_quick": ["8"], "args_thorough": ["40"]},
     ],
-    "ops": c12_ops,
+    "ops": with_extra(c12_ops, eq_kinds=(4, 12)),
     "extra_checks": [c12_extra],
     "exhaustive": False,
     "rule": "stream c12.secs: all 86400 seconds of each listed boundary date (month/year ends, 1582-10-04/15, leap days, range edges, the two "
